@@ -117,6 +117,13 @@ def run_setters(radio, agg, table):
                 agg.add("R03.4", func, "terminates", False, "%s: no complete path (loop bound)" % label)
                 continue
             for out in outs:
+                # R03.8: a configuration setter leaves the latched events alone.  send() decides from the cached MAX_RT whether a failed
+                # payload is still in the TX FIFO and must be flushed; a setter that clears MAX_RT on the way (the network layer sets
+                # `listen = True` after every transmission) lets the dead payload go out in front of the next one
+                from .radio import regwrites as _rw
+                clr = [x for x in _rw(out) if x[1] == 7 and (const_of(norm(x[2])) is None or const_of(norm(x[2])) & 0x10)]
+                agg.add("R03.8", func, "a configuration setter never clears the MAX_RT event (STATUS is written only by write(), resend(), read(), clear_status_flags())", not clr,
+                        "%s: writes %r to STATUS - the failed payload that send() would flush on seeing MAX_RT stays first in the TX FIFO" % (label, clr[0][2] if clr else None), clr[0][0].node if clr else None)
                 if "raise" in exp:
                     ok = out.kind == "raise" and out.value.exc == exp["raise"]
                     agg.add("R03.4", func, "out-of-domain input is rejected with %s" % exp["raise"], ok,
